@@ -1,5 +1,9 @@
 """Writes the committed wave tie files (kernels per pixel; pipelines).  Grid: tracer/recipes/wave.py (NU=3, NV=4)."""
 NU, NV = 3, 4
+from fractions import Fraction as Fr
+def cgrid(n, k): return Fr(-1, 2) + Fr(k, n - 1)                                   # linspace(-1/(2dx), 1/(2dx), n)[k] = c / dx
+def cinset(n, k): return (Fr(-1, 2) + Fr(1, 4 * n)) + (1 - Fr(1, 2 * n)) * Fr(k, n - 1)      # band-limited inset grid
+def q(c): return '(%d / %d)' % (c.numerator, c.denominator) if c >= 0 else '(- (%d / %d))' % (-c.numerator, c.denominator)
 PRE = '''(* Wave tie, %s: statements about the definitions traced from /repo on this run (Run.GenWaveK).
    Compiled on every run. *)
 From Coq Require Import Reals Lra Bool.
@@ -47,6 +51,11 @@ Qed.''' % (tag, i, j, args, n % 're', args, n % 'im', args, n % 're', args, n % 
            n % 're', args, n % 'im', args, n % 're', args, n % 'im', args, n % 're', args, n % 'im', args,
            tag, i, j, n % 'ph', args, tag, i, j, n % 'ph', args, tag, i, j, n % 'ph', args, tag, i, j))
             L.append('Lemma %s_ref_%d_%d %s z : 0 < dx -> 0 < lam -> %s%s %s z = z * %s lam %s %s.\nProof. %s Qed.' % (tag, i, j, args, hyp, n % 'ph', args, kz, fa, fb, prf))
+    if tag in ('as', 'nas'):
+        for i in range(NU):
+            for j in range(NV):
+                a, b = q(cgrid(NV, j)), q(cgrid(NU, i))
+                L.append('Lemma %s_radnn_%d_%d %s z : 0 < lam -> 0 < dx -> lam * lam <= 2 * (dx * dx) -> 0 <= %s_rad_%d_%d %s z.\nProof.\n  intros Hl Hd Hg. replace (%s_rad_%d_%d %s z) with (1 - (lam * (%s / dx)) ^ 2 - (lam * (%s / dx)) ^ 2) by (unfold %s_rad_%d_%d; field; lra).\n  apply rad_as_nonneg; try assumption; lra.\nQed.' % (tag, i, j, args, tag, i, j, args, tag, i, j, args, a, b, tag, i, j))
     open('Wave_TieK_%s.v' % tag, 'w').write('\n'.join(L) + '\n')
 # band-limited (torch and numpy): mask x phasor
 for tag, args in (('bl', 'dx lam'), ('nbl', 'k dx lam')):
@@ -69,6 +78,11 @@ Proof.
   f_equal. apply (kernel_compose (bl_ph_%d_%d dx lam)), bl_add_%d_%d.
 Qed.''' % ((i, j) * 19))
                 L.append('Lemma bl_mask_even_%d_%d dx lam z : bl_mask_%d_%d dx lam (- z) = bl_mask_%d_%d dx lam z.\nProof. unfold bl_mask_%d_%d. sqrt_canon. reflexivity. Qed.' % ((i, j) * 4))
+                a, b = q(cinset(NV, j)), q(cinset(NU, i))
+                L.append('Lemma bl_radnn_%d_%d dx lam z : 0 < lam -> 0 < dx -> lam * lam <= 2 * (dx * dx) -> 0 <= bl_rad_%d_%d dx lam z.\nProof.\n  intros Hl Hd Hg. replace (bl_rad_%d_%d dx lam z) with (1 / (lam ^ 2) - ((%s / dx) ^ 2 + (%s / dx) ^ 2)) by (unfold bl_rad_%d_%d; field; lra).\n  apply rad_bl_nonneg; try assumption; lra.\nQed.' % (i, j, i, j, i, j, a, b, i, j))
             else:
+                a, b = q(cgrid(NV, j)), q(cgrid(NU, i))
+                L.append('Lemma nbl_radnn_%d_%d k dx lam z : 0 < lam -> 0 < dx -> lam * lam <= 2 * (dx * dx) -> 0 <= nbl_rad_%d_%d k dx lam z.\nProof.\n  intros Hl Hd Hg. replace (nbl_rad_%d_%d k dx lam z) with (1 - (lam * (%s / dx)) ^ 2 - (lam * (%s / dx)) ^ 2) by (unfold nbl_rad_%d_%d; field; lra).\n  apply rad_as_nonneg; try assumption; lra.\nQed.' % (i, j, i, j, i, j, a, b, i, j))
+                L.append('Lemma nbl_add_%d_%d k dx lam z1 z2 : nbl_ph_%d_%d k dx lam (z1 + z2) = nbl_ph_%d_%d k dx lam z1 + nbl_ph_%d_%d k dx lam z2.\nProof. unfold nbl_ph_%d_%d. ring. Qed.' % ((i, j) * 5))
                 L.append('Lemma nbl_n2_%d_%d k dx lam z : n2 (nbl_re_%d_%d k dx lam z, nbl_im_%d_%d k dx lam z) <= 1.\nProof.\n  unfold nbl_re_%d_%d, nbl_im_%d_%d.\n  match goal with |- context [if ?b then _ else _] => destruct b end;\n  match goal with |- context [cos ?t] => pose proof (Cexpi_n2 t) as H; unfold n2, Cexpi in *; simpl in * end; nra.\nQed.' % ((i, j) * 5))
     open('Wave_TieK_%s.v' % tag, 'w').write('\n'.join(L) + '\n')
